@@ -626,7 +626,7 @@ func VerifC01_Tree() {
 	vsymExpect("roundtrip")
 	kinds := []int{1, 8, 12}
 	if vsymTier() == 1 {
-		kinds = []int{0, 5, 8, 11, 12} // 5 kinds: the 9-kind product (about 600,000 trees) did not finish in 25 minutes
+		kinds = []int{0, 3, 5, 8, 11, 12} // 6 kinds: the 9-kind product (about 600,000 trees) did not finish in 25 minutes
 	}
 	k := vsymChoose(3)
 	ref := &refNode{fc: 0}
